@@ -10,8 +10,10 @@ package lifecycle
 import (
 	"errors"
 	"fmt"
+	"os"
 	"strings"
 	"sync"
+	"sync/atomic"
 	"time"
 
 	"ergo.services/ergo/act"
@@ -33,6 +35,9 @@ const (
 	StateIdle = iota
 	StateInHandler
 	StateWaitResponse
+	// StateWaitTimeout: waiting for a response that does not come before the (1 s) timeout;
+	// the causes are issued during the wait. Costs a second, so it is drawn rarely.
+	StateWaitTimeout
 )
 
 const (
@@ -94,8 +99,13 @@ var stopReasons = []error{gen.TerminateReasonNormal, gen.TerminateReasonShutdown
 func Generate(t *rapid.T, scheduled bool, allowed []int) Scenario {
 	sc := Scenario{Scheduled: scheduled}
 	sc.Kind = rapid.IntRange(KindActor, KindRaw).Draw(t, "kind")
-	sc.State = rapid.IntRange(StateIdle, StateWaitResponse).Draw(t, "state")
-	if sc.State == StateWaitResponse && sc.Kind > KindActorTrap {
+	sc.State = rapid.SampledFrom([]int{StateIdle, StateInHandler, StateWaitResponse, StateIdle, StateInHandler, StateWaitResponse,
+		StateIdle, StateInHandler, StateWaitResponse, StateIdle, StateInHandler, StateWaitResponse,
+		StateIdle, StateInHandler, StateWaitResponse, StateIdle, StateInHandler, StateWaitTimeout, StateWaitTimeout}).Draw(t, "state")
+	if os.Getenv("VERIF_FORCE_WAIT_TIMEOUT") != "" {
+		sc.State = StateWaitTimeout // development aid: every case in the rare state
+	}
+	if sc.State >= StateWaitResponse && sc.Kind > KindActorTrap {
 		sc.State = StateInHandler
 	}
 	sc.SpinUs = rapid.IntRange(0, 30).Draw(t, "spin_us")
@@ -270,6 +280,7 @@ func Run(sc Scenario) (res *Result, err error) {
 
 	// put the receiver into the requested state
 	var gate kit.Gate
+	var callReturned atomic.Bool
 	switch sc.State {
 	case StateInHandler:
 		gate = kit.Gate{Entered: make(chan struct{}), Open: make(chan struct{})}
@@ -283,8 +294,12 @@ func Run(sc Scenario) (res *Result, err error) {
 			return nil, err
 		}
 		<-gate.Entered
-	case StateWaitResponse:
-		if err := node.Send(recv, kit.Do{F: func(a *kit.Actor) { a.CallWithTimeout(slow, "x", 2) }}); err != nil {
+	case StateWaitResponse, StateWaitTimeout:
+		tmo := 2
+		if sc.State == StateWaitTimeout {
+			tmo = 1
+		}
+		if err := node.Send(recv, kit.Do{F: func(a *kit.Actor) { a.CallWithTimeout(slow, "x", tmo); callReturned.Store(true) }}); err != nil {
 			return nil, err
 		}
 		if !kit.WaitUntil(2*time.Second, func() bool {
@@ -318,6 +333,18 @@ func Run(sc Scenario) (res *Result, err error) {
 		cmu.Lock()
 		res.Causes = append(res.Causes, c)
 		cmu.Unlock()
+	}
+	// wait-timeout state: nobody answers, the receiver leaves the wait through its timeout (or
+	// it is gone); the gates stay shut until then
+	var held []func()
+	if sc.State == StateWaitTimeout {
+		held = openGates
+		openGates = nil
+		defer func() {
+			for _, f := range held {
+				f()
+			}
+		}()
 	}
 	var wg sync.WaitGroup
 	for i, ops := range sc.Agents {
@@ -404,6 +431,19 @@ func Run(sc Scenario) (res *Result, err error) {
 	}
 	doneCh := make(chan struct{})
 	go func() { wg.Wait(); close(doneCh) }()
+	if held != nil {
+		go func() {
+			<-doneCh
+			// (the state word is no guide here: a killed process is "zombee" while it still waits)
+			kit.WaitUntil(4*time.Second, func() bool {
+				_, err := node.ProcessState(recv)
+				return err != nil || callReturned.Load()
+			})
+			for _, f := range held {
+				f()
+			}
+		}()
+	}
 	if sched != nil {
 		res.Steps = sched.Run(sc.Choices, func() bool {
 			select {
@@ -443,6 +483,15 @@ func Run(sc Scenario) (res *Result, err error) {
 	}
 	time.Sleep(time.Millisecond)
 	kit.WaitUntil(10*time.Second, func() bool { return gone() || kit.Quiesced(node, recv) })
+	// "asleep with an empty mailbox" is not final for a process that is on its way out (a
+	// supervisor waits like that for its children to stop): when a cause was issued, or the
+	// terminate callback is already on record, give it time to disappear
+	cmu.Lock()
+	ncauses := len(res.Causes)
+	cmu.Unlock()
+	if !gone() && (ncauses > 0 || probe.Terminated("recv", recv)) {
+		kit.WaitUntil(3*time.Second, gone)
+	}
 	res.Terminated = gone()
 	if !res.Terminated {
 		if stuck, w := kit.Stuck(node, recv); stuck {
